@@ -274,6 +274,29 @@ def r4_scan_shape(ctx):
                     ctx.ok("found|Some(%s)@bb%d" % (v, b), f.where(b), "returns the position whose bytes compared equal")
                 else:
                     ctx.bad("found|Some(%s)" % v[:20], f.where(b), "find returns Some(%s) without a successful comparison at that position" % v)
+    # every candidate the anchor position allows is compared: the window [index - crit, index - crit + nlen) lies inside the
+    # haystack exactly when index >= crit and start + nlen <= hlen; a stricter test drops the first / the last possible position
+    wins = [(b, s) for b in sorted(f.live) for s in f.blocks[b]["s"] if s["rv"]["k"] == "bin" and s["rv"]["op"].startswith("Sub") and sh(ne(f.expr(s["rv"]["a"], 4))) == "index"]
+    for b, s in wins:
+        sub = sh(ne(f.expr(s["rv"]["b"], 4)))
+        rel = [(op, sh(x), sh(y)) for op, x, y, S2 in cmp_facts(f, b) if {sh(x), sh(y)} == {"index", sub}]
+        norm = {("Ge", "index", sub), ("Le", sub, "index")}
+        if any(r_ in norm for r_ in rel):
+            ctx.ok("window|lower-bound", f.where(b), "candidate compared whenever index >= %s" % sub)
+        elif rel:
+            ctx.bad("window|lower-bound|%s" % "".join(rel[0][0]), f.where(b), "the candidate at anchor position `index` is compared only under %s(%s, %s); the window starts at index - %s, which is inside the text as soon as index >= %s - with the stricter test a needle that matches at the very start of the (remaining) text is never compared, so find misses it and replace skips an occurrence that directly follows the previous one" % (rel[0][0], rel[0][1], rel[0][2], sub, sub))
+    for S2 in sorted(f.live):
+        if f.blocks[S2]["t"]["k"] != "switch":
+            continue
+        si2 = f.switch_info(S2)
+        if si2["kind"] == "bin":
+            a_, b_ = sh(ne(f.expr(si2["a"], 4))), sh(ne(f.expr(si2["b"], 4)))
+            if a_ == "Add(start,nlen)" and b_ in ("hlen", "len(h)"):
+                if si2["op"] == "Le":
+                    ctx.ok("window|upper-bound", f.where(S2), "start + nlen <= hlen")
+                else:
+                    ctx.bad("window|upper-bound|%s" % si2["op"], f.where(S2), "the window's end is tested with %s(start + nlen, hlen): `<=` is what keeps a match that ends exactly at the end of the text" % si2["op"])
+    ctx.floor("anchor windows in find", len(wins), 1)
     # replace: copy haystack[pos..index], then `to`, continue at index + len(from)
     r = ctx.need(REPL)
     ctx.touch(r)
